@@ -304,9 +304,6 @@ pub fn property() -> Property {
         },
         hang_is_violation: true,
         hang_limit_s: 900,
-        probes: match read_replay(&format!("{}/known/C06-dual-token-lockstep.json", verif_dir())) {
-            Ok((_, _, data)) => vec![KnownProbe { signature: "dual-token-lockstep", kind: "recovery", data }],
-            Err(_) => vec![],
-        },
+        probes: vec![],
     }
 }
